@@ -194,17 +194,11 @@ func vfC20Run(t *testing.T, msgs []vfC20Msg, choose func(n int) int) (lit string
 			tid := parked[c]
 			st.mu.Lock()
 			ph := st.gets[tid]
+			kd := st.kind[tid]
 			st.mu.Unlock()
 			st.release(tid)
-			if ph == 1 {
-				acts = append(acts, fmt.Sprintf("AP1 %d", tid))
-				sched = append(sched, fmt.Sprintf("p1 %d", tid))
-			} else {
-				acts = append(acts, fmt.Sprintf("AP2 %d", tid))
-				sched = append(sched, fmt.Sprintf("p2 %d", tid))
-				// the Put of the same exclusive section follows at once (the thread holds the exclusive
-				// lock, so it either parks in Put or returns Ignore without contention)
-				inPut := false
+			// wait until the validation is parked again or has returned
+			waitNext := func() (inPut bool) {
 				for k := 0; k < 20000; k++ {
 					st.mu.Lock()
 					_, inPut = st.pending[tid]
@@ -213,27 +207,38 @@ func vfC20Run(t *testing.T, msgs []vfC20Msg, choose func(n int) int) (lit string
 					_, fin := results[tid]
 					mu.Unlock()
 					if inPut || fin {
-						break
+						return
 					}
 					time.Sleep(50 * time.Microsecond)
 				}
-				if inPut {
-					st.release(tid)
-					for k := 0; k < 20000; k++ {
-						mu.Lock()
-						_, fin := results[tid]
-						mu.Unlock()
-						if fin {
-							break
-						}
-						time.Sleep(50 * time.Microsecond)
-					}
-				}
+				return
+			}
+			noteAccept := func() {
 				mu.Lock()
 				if r, ok := results[tid]; ok && r == ValidationAccept && len(msgs[tid].Seq) >= 8 {
 					accepts = append(accepts, fmt.Sprintf("(%d, %d%%N)", msgs[tid].Author, binary.BigEndian.Uint64(msgs[tid].Seq)))
 				}
 				mu.Unlock()
+			}
+			switch {
+			case kd == "get" && ph == 1:
+				acts = append(acts, fmt.Sprintf("AP1 %d", tid))
+				sched = append(sched, fmt.Sprintf("p1 %d", tid))
+			case kd == "get":
+				// the re-check under the exclusive lock: the validation either returns Ignore or goes on to write the nonce.
+				// The write is a scheduling point of its own: if the implementation still holds the lock nothing can overtake
+				// it, if it does not, another validation can
+				sched = append(sched, fmt.Sprintf("p2-read %d", tid))
+				if !waitNext() {
+					acts = append(acts, fmt.Sprintf("AP2 %d", tid))
+					sched = append(sched, fmt.Sprintf("p2 %d", tid))
+					noteAccept()
+				}
+			default: // parked in Put
+				waitNext()
+				acts = append(acts, fmt.Sprintf("AP2 %d", tid))
+				sched = append(sched, fmt.Sprintf("p2 %d", tid))
+				noteAccept()
 			}
 			mu.Lock()
 			p := panicked
@@ -295,6 +300,11 @@ func vfExplore(limit int, run func(choose func(n int) int)) int {
 		choose := func(k int) int {
 			if depth < len(script) {
 				c := script[depth]
+				if c >= k { // the tree is not the same on every run when validations are not serialised by the lock
+					c = k - 1
+					script[depth] = c
+				}
+				width[depth] = k
 				depth++
 				return c
 			}
@@ -388,6 +398,8 @@ func TestVF_C20(t *testing.T) {
 		func() []byte { return vfSeqBytes(uint64(rng.Intn(6))) },
 		func() []byte { return vfSeqBytes(^uint64(0) - uint64(rng.Intn(2))) },
 		func() []byte { return vfSeqBytes(uint64(rng.Int63())) },
+		func() []byte { return vfSeqBytes(uint64(1)<<63 - 2 + uint64(rng.Intn(5))) }, // around 2^63
+		func() []byte { return vfSeqBytes(uint64(rng.Intn(4)) << 62) },
 		func() []byte { return nil },
 		func() []byte { b := make([]byte, 1+rng.Intn(7)); rng.Read(b); return b },       // 1..7 bytes
 		func() []byte { b := make([]byte, 9+rng.Intn(4)); rng.Read(b); b[0] = 0; return b }, // > 8 bytes
@@ -402,10 +414,29 @@ func TestVF_C20(t *testing.T) {
 		}
 		record(msgs, func(k int) int { return rng.Intn(k) })
 	}
+	// ladders: one author, validations one after the other (the i-th finishes before the next starts), climbing through the
+	// top half of the range in steps below 2^63 and then dropping to small values, zero and the maximum
+	nlad := vfN(30, 300)
+	for c := 0; c < nlad; c++ {
+		var msgs []vfC20Msg
+		v := uint64(rng.Intn(3))
+		for len(msgs) < 2+rng.Intn(3) {
+			v += uint64(1)<<62 + uint64(rng.Int63n(1<<62))
+			if v < uint64(1)<<62 { // wrapped
+				break
+			}
+			msgs = append(msgs, vfC20Msg{Author: 0, Seq: vfSeqBytes(v)})
+		}
+		for k := 1 + rng.Intn(3); k > 0; k-- {
+			msgs = append(msgs, vfC20Msg{Author: 0, Seq: [][]byte{vfSeqBytes(0), vfSeqBytes(uint64(rng.Intn(5))), vfSeqBytes(^uint64(0)), vfSeqBytes(uint64(1) << 63)}[rng.Intn(4)]})
+		}
+		cs.kind("ladder")
+		record(msgs, func(k int) int { return 0 })
+	}
 	if violation != "" {
 		js, _ := json.MarshalIndent(map[string]any{"key": "seqno-validator-panic", "code": 90, "what": violation, "case": violRec}, "", " ")
 		os.WriteFile(filepath.Join(vfOutDir(t), "violation_c20_panic.json"), js, 0o644)
 	}
 	cs.flush("every release order of the two validator phases for 1..N concurrent validations over seqnos {1,2,empty,2^64-1} " +
-		"(exhaustive, stateless DFS) plus random multisets over 2 authors incl. wrong-length encodings; non-trivial = two validations of one author overlap in time; distinct = hash of messages+schedule+observations")
+		"(exhaustive, stateless DFS) plus random multisets over 2 authors incl. wrong-length encodings and values around 2^62, 2^63 and 2^64, plus sequential ladders that climb through the upper half of the range and then drop to small values; non-trivial = two validations of one author overlap in time; distinct = hash of messages+schedule+observations")
 }
